@@ -207,9 +207,12 @@ def run_e2e(ck, binp, stats):
 
 def main(ck):
     ck.assumptions += [
-        "decimal -> binary64 conversion: the theorems take it as a Section variable dec2f with the hypothesis that it is the "
-        "correctly rounded conversion (Model.dec2f_exact); the harness checks every generated float literal against Go strconv.ParseFloat "
-        "and the model evaluation checks it against dec2f_exact (exact integer arithmetic)",
+        "decimal -> binary64 conversion: the theorems take the conversion the parser calls as a Section variable dec2f; the float theorems "
+        "have the hypothesis that it is the correctly rounded conversion Model.dec2f_exact (exact integer arithmetic, proved correctly rounded: "
+        "C06_dec2f_exact_correctly_rounded). The hypothesis is CHECKED on every run: every float field the implementation stores (the real "
+        "parser, strconv.ParseFloat since 8629b74) is compared bit for bit with dec2f_exact of its literal - random spellings, 17+ digit "
+        "literals, exact midpoints between neighbouring doubles and their neighbours, subnormals, 'f'-suffixed literals "
+        "(coverage float_literals_checked_against_dec2f_exact)",
         "float64 -> int64 of out-of-range values behaves as on amd64 (0x8000000000000000)",
         "tag arrays disabled (the default); precision parameter ns (factor 1) in the parser differential",
         "strings.TrimSpace around the timestamp is modelled for ASCII white space only",
@@ -323,6 +326,10 @@ def main(ck):
     ck.cov["failing_inputs_by_finding"] = dict(stats["by_finding"])
     ck.cov["judged_by_direct_oracle"] = sum(1 for c in cases if c["judged"])
     ck.cov["traces_validated_against_impl"] = (len(cases) - sum(1 for v in (codes or {}).values() if v == 999)) if codes is not None else 0
+    # every float field of an accepted row was compared, bit for bit, with Model.dec2f_exact of its literal (cmp_field);
+    # a difference would have surfaced as code 100+ (C06-float-exp, fixed: violation) or 999
+    ck.cov["float_literals_checked_against_dec2f_exact"] = (sum(1 for i, c in enumerate(cases) if (codes or {}).get(i, 0) < 100
+                                                                  for r in c["rows"] for f in r["fields"] if f["t"] == 3) if codes is not None else 0)
     ck.cov["samples"] = [c["text"] for c in cases if c["class"] in ("valid", "batch")][:4]
     stale = [f["id"] for f in ck.findings if f.get("status") == "open" and stats["by_finding"].get(f["id"], 0) == 0]
     if stale:
